@@ -299,11 +299,16 @@ func main() {
 		}
 
 		depthMinus := 0
+		fieldAmb := false
 		switch {
 		case methodWins == "d >= 0 && d < len(ti) => { goto tryMethods }" && ambiguous == "d == len(ti)":
 			depthMinus = 0
 		case methodWins == "d >= 0 && d < len(ti)-1 => { goto tryMethods }" && ambiguous == "d == len(ti)-1":
 			depthMinus = 1
+		case methodWins == "d >= 0 && d < len(ti)-1 => { goto tryMethods }" &&
+			ambiguous == "d == len(ti)-1 || n.typ.fieldCount(n.child[1].ident, len(ti)-1) > 1":
+			// since 43e97a5: another field of that name at the depth of the field found is ambiguous too
+			depthMinus, fieldAmb = 1, true
 		default:
 			unrec = append(unrec, "cfg.go case selectorExpr: depth comparisons: "+methodWins+" | "+ambiguous)
 		}
@@ -316,6 +321,50 @@ func main() {
 			}
 			if !strings.Contains(t, "d < len(lind)"+k+" {") || !strings.Contains(t, "d == len(lind)"+k+" {") {
 				unrec = append(unrec, "cfg.go case selectorExpr: the comparisons on lind differ from those on ti")
+			}
+		}
+
+		// 4b. cfg.go post-order `case typeSwitch`: are the clause types checked with typeAssertionExpr;
+		//     type.go implements: is the receiver kind tested (needsPtrFor); typecheck.go typeAssertionExpr:
+		//     which methods are rejected for their pointer receiver
+		tswitchChecked := false
+		tsHash := "unrecognised: post-order case typeSwitch not found"
+		ast.Inspect(fc, func(n ast.Node) bool {
+			cc, ok := n.(*ast.CaseClause)
+			if !ok || len(cc.List) != 1 || !caseHas(cc, "typeSwitch") || !contains(cc, "usedCase") {
+				return true
+			}
+			tsHash = fmt.Sprintf("%x", sha256.Sum256([]byte(text(cc))))[:16]
+			switch {
+			case contains(cc, "if !t.typ.isNil() { if err = check.typeAssertionExpr(guard, t.typ); err != nil { return } }") &&
+				contains(cc, "guard := n.child[1].lastChild().child[0]"):
+				tswitchChecked = true
+			case contains(cc, "typeAssertionExpr"):
+				unrec = append(unrec, "cfg.go case typeSwitch: use of typeAssertionExpr not recognised")
+			}
+			return false
+		})
+		implPtr := false
+		if fd := common.FindFunc(ft, "itype", "implements"); fd != nil {
+			switch {
+			case contains(fd, "return t.methods().contains(it.methods()) && !t.needsPtrFor(it)"):
+				implPtr = true
+			case contains(fd, "return t.methods().contains(it.methods()) }"):
+			default:
+				unrec = append(unrec, "type.go implements: last return not recognised")
+			}
+		}
+		assertPtrOwnOnly := false
+		if fd := common.FindFunc(fk, "typecheck", "typeAssertionExpr"); fd == nil {
+			unrec = append(unrec, "typecheck.go: typeAssertionExpr not found")
+		} else {
+			const tail = "tm.recv != nil && tm.recv.TypeOf().Kind() == reflect.Ptr && typ.TypeOf().Kind() != reflect.Ptr"
+			switch {
+			case contains(fd, "if _, index := typ.lookupMethod(name); len(index) == 0 && "+tail+" {"):
+				assertPtrOwnOnly = true
+			case contains(fd, "if "+tail+" {"):
+			default:
+				unrec = append(unrec, "typecheck.go typeAssertionExpr: pointer-receiver test not recognised")
 			}
 		}
 
@@ -489,7 +538,21 @@ func main() {
 
 		// 5b. genInterfaceWrapper: the receiver its method wrappers get
 		ifaceWrapHeld := false
-		if fd := common.FindFunc(fr, "", "genInterfaceWrapper"); fd == nil {
+		fdW := common.FindFunc(fr, "", "genInterfaceWrapperValue") // since ccca582 the body of genInterfaceWrapper lives here
+		if fdW == nil {
+			fdW = common.FindFunc(fr, "", "genInterfaceWrapper")
+		}
+		assertHostHeld := false
+		if fd := common.FindFunc(fr, "", "typeAssert"); fd != nil {
+			switch {
+			case contains(fd, "held := func(*frame) reflect.Value { return val.value }") && contains(fd, "value0(f).Set(genInterfaceWrapperValue(val.node, rtype, held)(f))"):
+				assertHostHeld = true
+			case contains(fd, "value0(f).Set(genInterfaceWrapper(val.node, rtype)(f))"):
+			default:
+				unrec = append(unrec, "run.go typeAssert: the wrapper of an assertion to a host interface is not built as expected")
+			}
+		}
+		if fd := fdW; fd == nil {
 			unrec = append(unrec, "run.go: genInterfaceWrapper not found")
 		} else {
 			var recvs []string
@@ -529,10 +592,10 @@ func main() {
 		}
 
 		hT := common.HashTable(fsT, ft, [][2]string{{"itype", "lookupField"}, {"itype", "fieldIndex"}, {"itype", "lookupMethod"}, {"itype", "lookupMethod2"},
-			{"itype", "getMethod"}, {"itype", "methodDepth"}, {"itype", "methodCount"}, {"itype", "methods"}, {"methodSet", "contains"}, {"itype", "implements"}, {"", "lookupFieldOrMethod"}})
+			{"itype", "getMethod"}, {"itype", "methodDepth"}, {"itype", "methodCount"}, {"itype", "fieldCount"}, {"itype", "needsPtrFor"}, {"itype", "methods"}, {"methodSet", "contains"}, {"itype", "implements"}, {"", "lookupFieldOrMethod"}})
 		hC := common.HashTable(fsC, fc, [][2]string{{"", "matchSelectorMethod"}, {"", "getDefault"}})
 		hR := common.HashTable(fsR, fr, [][2]string{{"", "typeAssert"}, {"", "_case"}, {"", "implementsInterface"}, {"", "canAssertTypes"},
-			{"", "getMethod"}, {"", "getMethodByName"}, {"", "lookupMethodValue"}, {"", "stripReceiverFromArgs"}, {"", "genFunctionWrapper"}, {"", "genInterfaceWrapper"}, {"", "copyDeferArg"}})
+			{"", "getMethod"}, {"", "getMethodByName"}, {"", "lookupMethodValue"}, {"", "stripReceiverFromArgs"}, {"", "genFunctionWrapper"}, {"", "genInterfaceWrapper"}, {"", "genInterfaceWrapperValue"}, {"", "copyDeferArg"}})
 		hK := common.HashTable(fsK, fk, [][2]string{{"typecheck", "typeAssertionExpr"}})
 		hV := common.HashTable(fsV, fv, [][2]string{{"", "genDestValue"}, {"", "genValueInterface"}, {"", "genValueRecv"}})
 		return fmt.Sprintf(`import YaegiVerif.Model.Method
@@ -550,6 +613,11 @@ def facts : Facts :=
     methodWinsCond := %s,
     ambiguousCond := %s,
     fieldDepthMinus := %d,
+    fieldAmbiguityCheck := %v,
+    implementsChecksRecv := %v,
+    assertPtrOwnOnly := %v,
+    tswitchCasesChecked := %v,
+    assertHostWrapsHeld := %v,
     recvBind := { atCreation := %v, ptrToVal := .%s, valToPtr := .%s, same := .%s, call := .%s,
                   lateNilNode := %v, lateCall := .%s, ifaceWrapHeld := %v },
     ifaceCopies := %v }
@@ -565,10 +633,11 @@ def sourceHashes : List (String × String) :=
   [("cfg.go case selectorExpr", %s),
    ("cfg.go pre-order case switchStmt, typeSwitch", %s),
    ("cfg.go post-order case switchStmt", %s),
+   ("cfg.go post-order case typeSwitch", %s),
    ("genFunctionWrapper receiver binding", %s)]
 end YaegiVerif.Generated.C05
-`, defaultSwap, clauseChain, methodPick, ambCheck, embedOnly, fieldPick, namesOnly, common.LeanStr(methodWins), common.LeanStr(ambiguous), depthMinus,
+`, defaultSwap, clauseChain, methodPick, ambCheck, embedOnly, fieldPick, namesOnly, common.LeanStr(methodWins), common.LeanStr(ambiguous), depthMinus, fieldAmb, implPtr, assertPtrOwnOnly, tswitchChecked, assertHostHeld,
 			atCreation, bind["ptrToVal"], bind["valToPtr"], bind["same"], bind["call"], lateNilNode, bind["lateCall"], ifaceWrapHeld, ifaceCopies,
-			common.LeanStrList(unrec), hT, hC, hR, hK, hV, common.LeanStr(selHash), common.LeanStr(preHash), common.LeanStr(postHash), common.LeanStr(recvHash)), nil
+			common.LeanStrList(unrec), hT, hC, hR, hK, hV, common.LeanStr(selHash), common.LeanStr(preHash), common.LeanStr(postHash), common.LeanStr(tsHash), common.LeanStr(recvHash)), nil
 	})
 }
